@@ -17,7 +17,14 @@ Section Run.
   Definition sx_ep (ep : endpoint E) : sx :=
     SxL [sx_table (table E ep); SxL (map (fun d => sx_amsg (d_hdr d, d_body d)) (ep_sent E ep));
          sx_list sx_kop (ep_kops E ep); sx_nat (List.length (ep_tape E ep));
-         match ep_routed E ep with Some c => sx_nat c | None => SxNone end].
+         match ep_routed E ep with Some c => sx_nat c | None => SxNone end;
+         match ep_status E ep with
+         | None => SxNone
+         | Some l => SxL (map (fun e => SxL [sx_bytes (su_my_spi e); sx_bytes (su_peer_spi e); sx_bool (su_init e);
+                                             SxZ (su_state e); SxZ (su_msg_id e);
+                                             SxL (map (fun c => match c with (a, b, p, m) => SxL [sx_bytes a; sx_bytes b; SxZ p; SxZ m] end)
+                                                      (su_children e))]) l)
+         end].
 
   Definition pmsg_of (h : hdr) (x : sx) : option (pmsg body) :=
     match x with
@@ -36,6 +43,7 @@ Section Run.
         | 1, [my; peer; a; b; idx] => iteration E ep tnow tape (Ev_acquire (Z_of my) (Z_of peer) (ts_of a) (ts_of b) (Z_of idx))
         | 2, [spi; hard] => iteration E ep tnow tape (Ev_expire (bytes_of spi) (bool_of hard))
         | 3, [] => iteration E ep tnow tape Ev_none
+        | 5, [] => iteration E ep tnow tape Ev_status
         | 4, [cid; d; r; dl] =>        (* the scenario driver wrote the timers of a real object *)
             force_timers E ep (Z.to_nat (Z_of cid)) (Z_of d) (Z_of r) (Z_of dl)
         | _, _ => ep
@@ -58,7 +66,7 @@ Definition run_endpoint (x : sx) : sx :=
   match x with
   | SxL [SxL cs; secret; tables; SxL evs] =>
       let E := env_of tables in
-      SxL (ep_steps E (mk_ep E [] 0 (map conf_entry_of cs) (bytes_of secret) [] 0 [] [] None) evs)
+      SxL (ep_steps E (mk_ep E [] 0 (map conf_entry_of cs) (bytes_of secret) [] 0 [] [] None None) evs)
   | _ => bad_input
   end.
 
